@@ -85,7 +85,20 @@ class Automaton(object):
     def field_off(self, name):
         return self.rec.field(name)[1]
 
-    def step_relation(self, s, input_dom=None):
+    def may_lack_extra(self):
+        """Can the constructor hand out an automaton whose `extra` block is missing (an allocation failed but the
+        automaton itself is returned)?"""
+        I, outs = run_entry(self.prog, AUTOMATA_UNIT, self.ctor, lambda I, st: [], port=PortModel(alloc_may_fail=True), name=self.ctor + '[faults]')
+        eo = self.field_off('extra')
+        for st, ret in outs:
+            t = st.canon(ret.t)
+            if t[0] == 'ptr' and t[1] in st.objs:
+                c = st.objs[t[1]].cells.get(((), eo))
+                if c is not None and st.canon(c[1]) == ZERO:
+                    return True
+        return False
+
+    def step_relation(self, s, input_dom=None, extra_null=False):
         """Interpret the switch function from state s with an arbitrary input and arbitrary elapsed time.
         -> (engine, [(final_state, new_state_value, input_dom, timeout_class)])"""
         st = self.state0.fork()
@@ -96,6 +109,9 @@ class Automaton(object):
         lt = ('sym', 'last_ts@entry', 1, 1 << 62)
         a.cells[((), self.field_off('last_ts'))] = (8, lt)
         st.tags['clkfloor.s'] = (lt,)
+        if extra_null:
+            from ..facts import WORD
+            a.cells[((), self.field_off('extra'))] = (WORD, ZERO)
         inp = ('sym', 'input', -(1 << 31), (1 << 31) - 1)
         ix = self.ix
         ret = self.ret
